@@ -21,9 +21,10 @@ Definition d_nkey (s : sexp) : nkey := (d_str (d_nth s 0), d_Z (d_nth s 1), d_st
 Definition d_op (s : sexp) : bool * op :=
   (d_bool (d_nth s 0),
    match d_Z (d_nth s 1) with
-   | 0%Z => ONewReader (d_opt d_pairs (d_nth s 2))
+   | 0%Z => ONewReader (mkOpts (d_opt d_pairs (d_nth s 2)) (d_bool (d_nth s 3)) (d_opt (d_list d_str) (d_nth s 4)))
    | 1%Z => OFeed (d_nat (d_nth s 2)) (d_file (d_nth s 3))
-   | 2%Z => OParse (d_opt d_pairs (d_nth s 2)) (d_list d_file (d_nth s 3))
+   | 2%Z => OParse (mkOpts (d_opt d_pairs (d_nth s 2)) (d_bool (d_nth s 5)) (d_opt (d_list d_str) (d_nth s 6))) (d_list d_file (d_nth s 3))
+            (* element 4 is the entry point the implementation wrapper uses: not part of the computation *)
    | 3%Z => OLowLevel (d_opt d_nat (d_nth s 2)) (d_file (d_nth s 3))
    | 4%Z => OFormatName (d_str (d_nth s 2)) (d_Z (d_nth s 3)) (d_str (d_nth s 4))
    | 5%Z => OBstRun (d_list d_nkey (d_nth s 2))
@@ -63,7 +64,7 @@ Definition e_item (i : item) : sexp :=
   match i with
   | IString n parts => L [A 0%Z; e_str n; e_list e_str parts]
   | IPreamble parts => L [A 1%Z; e_list e_str parts]
-  | IEntry t k fs => L [A 2%Z; e_str t; e_str k; e_list (e_pair e_str (e_list e_str)) fs]
+  | IEntry t k fs => L [A 2%Z; e_str t; e_opt e_str k; e_list (e_pair e_str (e_list e_str)) fs]
   end.
 Definition e_oval (v : oval) : sexp :=
   match v with
